@@ -2523,7 +2523,7 @@ def distributed_shampoo(
     prev_stacked_padded_preconditioners = _maybe(jnp.stack)(
         prev_padded_preconditioners)
     prev_stacked_padded_preconditioners = _maybe(lax.with_sharding_constraint)(
-        prev_padded_preconditioners, statistics_partition_spec
+        prev_stacked_padded_preconditioners, statistics_partition_spec
     )
 
     def _internal_inverse_pth_root_all():
